@@ -29,6 +29,8 @@ IMG_DATA = {
     "I7": [[[0.1, 0.4]], [[0.3, 1.0], [0.2, 0.9]], [[0.0, 2.0], [1.0, 1.5], [0.5, 0.75]], [[0.25, 0.5]], [[0.0, 3.0], [2.0, 2.5]],
            [[1.0, 1.25], [1.5, 2.75], [0.0, 0.5], [0.75, 1.0]], [[0.6, 2.2]]],
     "I4": {"diagrams": [[[0.5, 1.5], [1.0, 1.25]], [[0.25, 2.0]]], "pattern": [0, 1, 0, 0]},
+    # a collection containing an EMPTY diagram (a (0,2) array): it has no pairs to enclose and an all-zero image
+    "I8": [[[0.2, 0.7], [0.4, 1.9]], [], [[0.0, 1.0]]],
 }
 THOROUGH_ONLY = {"I5", "I6", "L4", "L5"}
 TIER = "quick"
@@ -96,7 +98,7 @@ def data_for(init, key):
         if isinstance(spec, dict):
             base = [np.array(x, dtype=float) for x in spec["diagrams"]]
             return [base[i] for i in spec["pattern"]]
-        d = [np.array(x, dtype=float) for x in spec]
+        d = [np.array(x, dtype=float).reshape(-1, 2) for x in spec]
         return d[0] if len(d) == 1 else d
     return [np.array(x, dtype=float) for x in LS_DATA[key]]
 
